@@ -14,4 +14,9 @@ PqKeys == { <<18>>, <<18, 1>>, <<18, 2>> }
 PgKeys == { <<>>, <<16>>, <<18>>, <<18, 1>>, <<18, 2>>, <<31>>, <<18, 83>>, <<18, 84>> }
 PgVals == { <<>>, <<1>>, Rep(31, 5), Rep(32, 7), Rep(33, 9), Rep(40, 3) }
 PgProbe == { <<17>>, <<18, 1, 0>>, <<18, 80>>, <<1>> }
+(* boundary alphabet: leaf encodings of exactly 31 / 32 / 33 bytes (a node of exactly 32 bytes *)
+(* is stored by hash, so it must be in the proof; one of 31 bytes is inlined in its parent)    *)
+PbKeys == { <<18, 52>>, <<34, 52>>, <<18, 83>>, <<18, 84>>, <<31>> }
+PbVals == { Rep(27, 2), Rep(28, 8), Rep(29, 4), Rep(30, 6), <<1>> }
+PbProbe == { <<18, 53>>, <<35>> }
 =============================================================================
